@@ -88,7 +88,12 @@ PROPS["C12"] = dict(
     harness=[dict(sub="c12", profile="debug")],
     rule="all ordered pairs of segments with integer endpoints in {0..3}^2 (quick, 65536 pairs) / {0..4}^2 (thorough), "
          "then random segments in [-50,50]^2 with a collinear-endpoint bias; curve queries on random f64 curves with "
-         "constructed crossings; non-trivial = pair that crosses or is reported; distinct = distinct coordinates",
+         "constructed crossings; f32 line x cubic / quadratic queries on lattice curves moved by an affine map (generic, "
+         "degree-elevated quadratics, linear-derivative cubics) with a constructed transversal line (soundness to 1e-3 of the "
+         "curve's size, both crossings reported; K16 known); Triangle::{contains_point, intersects_line_segment, intersects}, "
+         "axis-aligned line intersections, intersects_line / overlaps_line / overlaps_segment / contains_segment, "
+         "Line::intersects_box against integer oracles; utils::cubic_polynomial_roots on polynomials with chosen roots; "
+         "non-trivial = pair that crosses or is reported; distinct = distinct coordinates",
     exhaustive_note="segment pairs on the stated lattice are enumerated completely",
     trusted_base=["Model/LineInter.v follows LineSegment::intersection_t / line_intersection_t statement by statement"],
     assumptions=["rational arithmetic in the theorems; on integer input every f64 intermediate before the final division is exact"],
@@ -560,7 +565,9 @@ PROPS["C13"] = dict(
     harness=[dict(sub="c13", profile="debug")],
     rule="integer end points in [-10,10]^2, radii relative to the chord {comfortable, too small (scaled), = chord, = half "
          "chord (semicircle), arbitrary}, negative radius sign, x-rotation {0, the 3-4-5 angle, multiples of 0.3 rad}, all "
-         "four flag combinations; every case: centre form, round trip, quadratic and cubic sequences",
+         "four flag combinations; every case: centre form, round trip, quadratic and cubic sequences, and the consumers - "
+         "the same arc through Path::svg_builder().arc_to / relative_arc_to and through the parser's A command must run "
+         "from the current point to the requested end point along the ellipse",
     trusted_base=["Model/Arc.v follows Arc::from_svg_arc / to_svg_arc / arc_to_quadratic_beziers_with_t in arc.rs"],
     assumptions=["non-zero radii and distinct end points (otherwise lyon treats the arc as a straight line)"],
 )
@@ -625,7 +632,10 @@ PROPS["C03"] = dict(
     rule="random curved paths (1..2 closed sub-paths of up to 4 line / quadratic / cubic segments on a 14x14 lattice), every "
          "fourth case two sub-paths sharing a cubic edge in opposite directions; shapes: circles (radius 0.5..100 and 425), "
          "ellipses (radii 1..40, rotations), rectangles; tolerances {1, 0.25, 0.139, 0.1, 0.02}; fill rule and entry point "
-         "rotating; ~850 sample points per case; every sixth non-degenerate curved case through the Coq checker",
+         "rotating; ~850 sample points per case; every sixth non-degenerate curved case through the Coq checker; one closed "
+         "sub-path per iteration made of an SVG arc (Path::svg_builder().arc_to: comfortable / too small / equal / arbitrary "
+         "radii, rotations, all flag combinations) and its chord, against the arc computed independently of lyon from the SVG "
+         "implementation notes in f64",
     trusted_base=["same as C01; reference outlines are computed by the harness (uniform sampling in f32/f64)"],
     assumptions=["points within tolerance (+ sampling error) of the exact boundary are not judged"],
 )
